@@ -278,8 +278,9 @@ class Engine:
         else:
             text = ast.unparse(target)
             for rx, label in self.cfg.stmt_events:
-                if rx.search(text):
-                    st.emit(label)
+                m = rx.search(text)
+                if m:
+                    st.emit(label(m) if callable(label) else label)
 
     def truth(self, av):
         if isinstance(av, Const):
